@@ -107,33 +107,77 @@ def parseWDay (wday : List Char) : Py.R WDay :=
         | some n => if n == 0 then .error .ValueError else .ok (k, some n)
         | none => .error .ValueError
 
-/-- dispatch of `getattr(self, "_handle_" + name)`; `.error .AttributeError` = unknown name -/
-def handle (a : RArgs) (name value : List Char) : Py.R RArgs :=
-  let il (f : RArgs → List Int → RArgs) : Py.R RArgs := do let l ← intList value; .ok (f a l)
-  if name == lit "INTERVAL" then do let v ← int! value; .ok { a with interval := some v }
-  else if name == lit "COUNT" then do let v ← int! value; .ok { a with count := some v }
-  else if name == lit "BYSETPOS" then il (fun a l => { a with bysetpos := some l })
-  else if name == lit "BYMONTH" then il (fun a l => { a with bymonth := some l })
-  else if name == lit "BYMONTHDAY" then il (fun a l => { a with bymonthday := some l })
-  else if name == lit "BYYEARDAY" then il (fun a l => { a with byyearday := some l })
-  else if name == lit "BYEASTER" then il (fun a l => { a with byeaster := some l })
-  else if name == lit "BYWEEKNO" then il (fun a l => { a with byweekno := some l })
-  else if name == lit "BYHOUR" then il (fun a l => { a with byhour := some l })
-  else if name == lit "BYMINUTE" then il (fun a l => { a with byminute := some l })
-  else if name == lit "BYSECOND" then il (fun a l => { a with bysecond := some l })
+/-- the fifteen keyword arguments a part can set -/
+inductive Field where
+  | freq | interval | count | wkst | untilV | bysetpos | bymonth | bymonthday | byyearday | byeaster
+  | byweekno | byweekday | byhour | byminute | bysecond
+  deriving DecidableEq, Repr, Inhabited
+
+/-- one assignment `rrkwargs[key] = v` -/
+inductive Update where
+  | freq (v : Int) | interval (v : Int) | count (v : Int) | wkst (v : Int) | untilV (t : List Char)
+  | bysetpos (l : List Int) | bymonth (l : List Int) | bymonthday (l : List Int) | byyearday (l : List Int)
+  | byeaster (l : List Int) | byweekno (l : List Int) | byweekday (l : List WDay) | byhour (l : List Int)
+  | byminute (l : List Int) | bysecond (l : List Int)
+  deriving DecidableEq, Repr, Inhabited
+
+def Update.field : Update → Field
+  | .freq _ => .freq | .interval _ => .interval | .count _ => .count | .wkst _ => .wkst | .untilV _ => .untilV
+  | .bysetpos _ => .bysetpos | .bymonth _ => .bymonth | .bymonthday _ => .bymonthday | .byyearday _ => .byyearday
+  | .byeaster _ => .byeaster | .byweekno _ => .byweekno | .byweekday _ => .byweekday | .byhour _ => .byhour
+  | .byminute _ => .byminute | .bysecond _ => .bysecond
+
+/-- `rrkwargs[key] = v` (a later assignment to the same key overwrites) -/
+def Update.apply (u : Update) (a : RArgs) : RArgs :=
+  match u with
+  | .freq v => { a with freq := some v }
+  | .interval v => { a with interval := some v }
+  | .count v => { a with count := some v }
+  | .wkst v => { a with wkst := some v }
+  | .untilV t => { a with untilV := some t }
+  | .bysetpos l => { a with bysetpos := some l }
+  | .bymonth l => { a with bymonth := some l }
+  | .bymonthday l => { a with bymonthday := some l }
+  | .byyearday l => { a with byyearday := some l }
+  | .byeaster l => { a with byeaster := some l }
+  | .byweekno l => { a with byweekno := some l }
+  | .byweekday l => { a with byweekday := some l }
+  | .byhour l => { a with byhour := some l }
+  | .byminute l => { a with byminute := some l }
+  | .bysecond l => { a with bysecond := some l }
+
+/-- dispatch of `getattr(self, "_handle_" + name)`: which assignment the handler makes;
+    `.error .AttributeError` = unknown name -/
+def handleU (name value : List Char) : Py.R Update :=
+  if name == lit "INTERVAL" then do let v ← int! value; .ok (.interval v)
+  else if name == lit "COUNT" then do let v ← int! value; .ok (.count v)
+  else if name == lit "BYSETPOS" then do let l ← intList value; .ok (.bysetpos l)
+  else if name == lit "BYMONTH" then do let l ← intList value; .ok (.bymonth l)
+  else if name == lit "BYMONTHDAY" then do let l ← intList value; .ok (.bymonthday l)
+  else if name == lit "BYYEARDAY" then do let l ← intList value; .ok (.byyearday l)
+  else if name == lit "BYEASTER" then do let l ← intList value; .ok (.byeaster l)
+  else if name == lit "BYWEEKNO" then do let l ← intList value; .ok (.byweekno l)
+  else if name == lit "BYHOUR" then do let l ← intList value; .ok (.byhour l)
+  else if name == lit "BYMINUTE" then do let l ← intList value; .ok (.byminute l)
+  else if name == lit "BYSECOND" then do let l ← intList value; .ok (.bysecond l)
   else if name == lit "FREQ" then
     match lookup freqMap value with
-    | some f => .ok { a with freq := some f }
+    | some f => .ok (.freq f)
     | none => .error .KeyError
-  else if name == lit "UNTIL" then .ok { a with untilV := some value }
+  else if name == lit "UNTIL" then .ok (.untilV value)
   else if name == lit "WKST" then
     match lookup weekdayMap value with
-    | some k => .ok { a with wkst := some k }
+    | some k => .ok (.wkst k)
     | none => .error .KeyError
   else if name == lit "BYWEEKDAY" || name == lit "BYDAY" then do
     let l ← (splitOnChar ',' value).mapM parseWDay
-    .ok { a with byweekday := some l }
+    .ok (.byweekday l)
   else .error .AttributeError
+
+def handle (a : RArgs) (name value : List Char) : Py.R RArgs :=
+  match handleU name value with
+  | .ok u => .ok (u.apply a)
+  | .error e => .error e
 
 /-- the loop body of `_parse_rfc_rrule`: `name, value = pair.split('=')`, upper, dispatch with the
     exception mapping (AttributeError → ValueError, KeyError/ValueError → ValueError) -/
@@ -145,13 +189,17 @@ def stepPair (a : RArgs) (pair : List Char) : Py.R RArgs :=
     | .error _ => .error .ValueError
   | _ => .error .ValueError               -- unpacking error
 
+/-- the head of `_parse_rfc_rrule`: an optional `RRULE:` prefix (`name, value = line.split(':')`) -/
+def lineValue (line : List Char) : Py.R (List Char) :=
+  if line.contains ':' then
+    match splitOnChar ':' line with
+    | [name, value] => if name != lit "RRULE" then .error .ValueError else .ok value
+    | _ => .error .ValueError            -- `name, value = line.split(':')` with more than one ':'
+  else .ok line
+
 /-- `_parse_rfc_rrule(line)` up to the `rrule(**rrkwargs)` call -/
 def parseRRuleLine (line : List Char) : Py.R RArgs := do
-  let value ← (if line.contains ':' then
-      match splitOnChar ':' line with
-      | [name, value] => if name != lit "RRULE" then .error .ValueError else .ok value
-      | _ => .error .ValueError            -- `name, value = line.split(':')` with more than one ':'
-    else .ok line)
+  let value ← lineValue line
   (splitOnChar ';' value).foldlM stepPair {}
 
 /-- `if "freq" not in rrkwargs: raise ValueError` (since the C13 fix; it used to reach `rrule()` and leak TypeError) -/
@@ -241,32 +289,46 @@ def stepLine (acc : Acc) (line : List Char) : Py.R Acc :=
 
 def unfoldLines (lines : List (List Char)) : List (List Char) := ICal.unfold lines
 
-/-- `_rrulestr._parse_rfc(s, unfold, forceset, compatible)` up to the construction of the objects;
-    `dtstartKw` = whether a `dtstart=` keyword was passed (it only matters for `compatible`) -/
-def parseRfc (s0 : List Char) (o : Opts) (dtstartKw : Bool := false) : Py.R Parsed := do
-  let forceset := o.forceset || o.compatible
-  let unfold := o.unfold || o.compatible
-  let s := upper s0
-  if (strip s).isEmpty then .error .ValueError else
-  let lines := if unfold then unfoldLines (splitLines s) else splitWs s
-  if !forceset && lines.length == 1 && (!s.contains ':' || startsWith s (lit "RRULE:")) then do
-    let a ← parseRRuleLine (lines.headD [])
-    let a ← needFreq a
-    .ok (.rule a none)
+/-- the `lines` of `_parse_rfc`: unfolded `splitlines()` or plain `split()` -/
+def linesOf (s : List Char) (unfold : Bool) : List (List Char) :=
+  if unfold then unfoldLines (splitLines s) else splitWs s
+
+/-- `_parse_rfc_rrule(value, dtstart=…)` as far as the model goes: the keyword arguments, FREQ required -/
+def ruleOf (v : List Char) : Py.R RArgs := do let a ← parseRRuleLine v; needFreq a
+
+def buildRule (v : List Char) (dtstart : Option (List Char × List (List Char))) : Py.R Parsed := do
+  let a ← ruleOf v
+  .ok (.rule a dtstart)
+
+/-- the `rruleset` branch: every RRULE / EXRULE value parsed in order, RDATE values split at `,` -/
+def buildSet (acc : Acc) (compatible dtstartKw : Bool) : Py.R Parsed := do
+  let rr ← acc.rrulevals.mapM ruleOf
+  let ex ← acc.exrulevals.mapM ruleOf
+  let rdates := (acc.rdatevals.map (splitOnChar ',')).flatten
+  .ok (.set rr ex rdates acc.exdatevals acc.dtstart (compatible && (acc.dtstart.isSome || dtstartKw)))
+
+/-- the condition of the `rruleset` branch -/
+def wantsSet (forceset : Bool) (acc : Acc) : Bool :=
+  forceset || acc.rrulevals.length > 1 || !acc.rdatevals.isEmpty || !acc.exrulevals.isEmpty || !acc.exdatevals.isEmpty
+
+/-- `_parse_rfc` after upper-casing and line splitting (`s` is the upper-cased text) -/
+def parseLines (s : List Char) (lines : List (List Char)) (forceset compatible dtstartKw : Bool) : Py.R Parsed :=
+  if !forceset && lines.length == 1 && (!s.contains ':' || startsWith s (lit "RRULE:")) then
+    buildRule (lines.headD []) none
   else do
     let acc ← lines.foldlM stepLine {}
-    if forceset || acc.rrulevals.length > 1 || !acc.rdatevals.isEmpty || !acc.exrulevals.isEmpty || !acc.exdatevals.isEmpty then do
-      let rr ← acc.rrulevals.mapM (fun v => do let a ← parseRRuleLine v; needFreq a)
-      let ex ← acc.exrulevals.mapM (fun v => do let a ← parseRRuleLine v; needFreq a)
-      let rdates := (acc.rdatevals.map (splitOnChar ',')).flatten
-      .ok (.set rr ex rdates acc.exdatevals acc.dtstart (o.compatible && (acc.dtstart.isSome || dtstartKw)))
+    if wantsSet forceset acc then buildSet acc compatible dtstartKw
     else
       match acc.rrulevals with
-      | v :: _ => do
-        let a ← parseRRuleLine v
-        let a ← needFreq a
-        .ok (.rule a acc.dtstart)
+      | v :: _ => buildRule v acc.dtstart
       | [] => .error .ValueError                -- `if not rrulevals: raise ValueError` (since the C13 fix)
+
+/-- `_rrulestr._parse_rfc(s, unfold, forceset, compatible)` up to the construction of the objects;
+    `dtstartKw` = whether a `dtstart=` keyword was passed (it only matters for `compatible`) -/
+def parseRfc (s0 : List Char) (o : Opts) (dtstartKw : Bool := false) : Py.R Parsed :=
+  let s := upper s0
+  if (strip s).isEmpty then .error .ValueError
+  else parseLines s (linesOf s (o.unfold || o.compatible)) (o.forceset || o.compatible) o.compatible dtstartKw
 
 /-! ### `rrule.__str__` -/
 
@@ -300,24 +362,33 @@ def partOf (name : String) (v : Option (List Int)) : List (List Char) :=
   | some l => if l.isEmpty then [] else [lit name ++ ['='] ++ intercalate [','] (l.map showInt)]
   | none => []
 
-def toStr (x : StrIn) : List Char :=
-  let out0 : List (List Char) := match x.dtstart with
-    | some t => [lit "DTSTART:" ++ showDT t]
-    | none => []
-  let parts : List (List Char) :=
-    [lit "FREQ=" ++ FREQNAMES.getD x.freq []] ++
-    (if x.interval != 1 then [lit "INTERVAL=" ++ showInt x.interval] else []) ++
-    (if x.wkst != 0 then [lit "WKST=" ++ wdName x.wkst] else []) ++
-    (match x.count with | some c => [lit "COUNT=" ++ showInt c] | none => []) ++
-    (match x.untilV with | some t => [lit "UNTIL=" ++ showDT t] | none => []) ++
-    partOf "BYSETPOS" x.orig.bysetpos ++ partOf "BYMONTH" x.orig.bymonth ++
-    partOf "BYMONTHDAY" x.orig.bymonthday ++ partOf "BYYEARDAY" x.orig.byyearday ++
-    partOf "BYWEEKNO" x.orig.byweekno ++
-    (match x.orig.byweekday with
-     | some l => if l.isEmpty then [] else [lit "BYDAY=" ++ intercalate [','] (l.map showWDayStr)]
-     | none => []) ++
-    partOf "BYHOUR" x.orig.byhour ++ partOf "BYMINUTE" x.orig.byminute ++
-    partOf "BYSECOND" x.orig.bysecond ++ partOf "BYEASTER" x.orig.byeaster
-  intercalate ['\n'] (out0 ++ [lit "RRULE:" ++ intercalate [';'] parts])
+def byDayPart (v : Option (List WDay)) : List (List Char) :=
+  match v with
+  | some l => if l.isEmpty then [] else [lit "BYDAY=" ++ intercalate [','] (l.map showWDayStr)]
+  | none => []
+
+/-- the `parts` list of `__str__` -/
+def partsOf (x : StrIn) : List (List Char) :=
+  [lit "FREQ=" ++ FREQNAMES.getD x.freq []] ++
+  (if x.interval != 1 then [lit "INTERVAL=" ++ showInt x.interval] else []) ++
+  (if x.wkst != 0 then [lit "WKST=" ++ wdName x.wkst] else []) ++
+  (match x.count with | some c => [lit "COUNT=" ++ showInt c] | none => []) ++
+  (match x.untilV with | some t => [lit "UNTIL=" ++ showDT t] | none => []) ++
+  partOf "BYSETPOS" x.orig.bysetpos ++ partOf "BYMONTH" x.orig.bymonth ++
+  partOf "BYMONTHDAY" x.orig.bymonthday ++ partOf "BYYEARDAY" x.orig.byyearday ++
+  partOf "BYWEEKNO" x.orig.byweekno ++
+  byDayPart x.orig.byweekday ++
+  partOf "BYHOUR" x.orig.byhour ++ partOf "BYMINUTE" x.orig.byminute ++
+  partOf "BYSECOND" x.orig.bysecond ++ partOf "BYEASTER" x.orig.byeaster
+
+/-- `'RRULE:' + ';'.join(parts)` -/
+def rruleLineOf (x : StrIn) : List Char := lit "RRULE:" ++ intercalate [';'] (partsOf x)
+
+def dtstartLines (x : StrIn) : List (List Char) :=
+  match x.dtstart with
+  | some t => [lit "DTSTART:" ++ showDT t]
+  | none => []
+
+def toStr (x : StrIn) : List Char := intercalate ['\n'] (dtstartLines x ++ [rruleLineOf x])
 
 end RRuleStr
